@@ -210,6 +210,24 @@ def rule(ann, opts, site, g, pindex):
         return ('UNSPEC',)
     if has_type and ann not in ('type', 'skip', 'attributes'):
         return ('UNSPEC',)
+    if not is_ret:
+        for other in g['params']:
+            if other is site:
+                continue
+            oarr = other['anns'].get('array')
+            # named as the length of an out/inout array: the parameter follows the array's direction whatever its own
+            # declaration says.  If it has no direction annotation of its own and is not declared as a pointer, the
+            # description contradicts itself (gint length of an inout array); what nullable/optional/transfer mean on it
+            # is then not specified
+            if isinstance(oarr, dict) and oarr.get('length') == site['name'] and final_direction(other['anns']) in ('out', 'inout') \
+                    and not any(d in anns for d in ('in', 'out', 'inout')) and ann in ('nullable', 'optional', 'allow-none', 'not', 'transfer'):
+                return ('UNSPEC',)
+            # named as the destroy notify of another callback: maintransformer deliberately gives the destroy parameter the
+            # scope 'notified' ("technically bogus", its own comment says); a scope annotation on a parameter that is at the
+            # same time somebody's destroy notify is a contradictory description
+            odes = other['anns'].get('destroy')
+            if ann == 'scope' and odes and (odes[0] if isinstance(odes, list) else None) == site['name']:
+                return ('UNSPEC',)
     if ann == 'skip':
         return ('VALID', {'skip': '1'}, None)
     if ann == 'attributes':
@@ -552,6 +570,7 @@ def run(args):
                      'non-trivial = a differential that the rule table decides (VALID or INVALID)')
     n = int((400 if args.tier == 'quick' else 30000) * args.scale)
     cases = [(args.seed, i) for i in range(n)]
+    cases = core.replay_cases(args, cases)
     B = 8
     batches = [cases[k:k + B] for k in range(0, len(cases), B)]
     harness = []
